@@ -280,7 +280,7 @@ def run_tier_a(prop: str, harnesses, jobs: int = 0):
       if len(samples) < 12 and v.status == "proved" and v.backend != "z3-simplify":
         samples.append({"obligation": v.name, "kind": v.kind, "status": v.status, "backend": v.backend,
                         "time_s": round(v.time_s, 3), "smt2_bytes": v.size})
-    if not rep.errors and rep.paths and reach < 1:
+    if not rep.errors and rep.ok_paths and reach < 1:
       errors.append(f"harness={rep.name} vacuous: no path end is satisfiable ({rep.paths} paths)")
   if n_ob == 0 and not errors:
     errors.append("zero obligations generated")
